@@ -3,6 +3,7 @@ Theorems: Properties/C18.v (Model/Build.v, Model/Graph.v, Model/Sched.v).  Corre
 configurations in which exactly one reference of each kind is broken, at every position, and on the same configurations
 with the reference repaired; every pipeline of every accepted configuration is then run under a time limit."""
 import json
+import re
 import vlib
 import clilib
 
@@ -245,6 +246,15 @@ def run(ctx):
         elif clilib.crashed(r) or r["rc"] != 0:
             res.violations.append({"class": None, "what": "`%s` of an accepted configuration aborted" % " ".join(j["argv"][2:]), "case": c,
                                    "observed": {"pipeline": j["pipeline"], "rc": r["rc"], "err": (r.get("err") or "")[-500:]}})
+        elif "graph" in j["argv"]:
+            # the drawing shows every declared dependency of the pipeline's own stages (also those of a stage that includes a pipeline)
+            txt = r.get("out") or ""
+            labels = dict(re.findall(r'(n\d+)\[label="([^"]*)"\]', txt))
+            drawn = {(labels.get(a, a), labels.get(b, b)) for a, b in re.findall(r"(n\d+)->(n\d+)", txt)}
+            declared = {(d, stage_name(st)) for st in cases[j["case"]]["cfg"]["pipelines"][j["pipeline"]] for d in st.get("depends_on", [])}
+            if not declared <= drawn:
+                res.violations.append({"class": None, "what": "`graph %s` does not show every declared dependency" % j["pipeline"], "case": c,
+                                       "observed": {"missing": sorted(declared - drawn), "drawn": sorted(drawn)}})
     for c in cases:
         c.pop("_acc", None)
     res.samples = [cases[0], cases[min(5, len(cases) - 1)]]
